@@ -69,6 +69,10 @@ func (z *Interpreter) SetExternalLibs(libs []*r.Library) *Interpreter {
 ///// load functions //////
 
 func (z *Interpreter) LoadScript(source []rune) *Interpreter {
+	// load into a copy: the receiver may be shared by concurrent requests, and each
+	// of them must execute the code it loaded itself
+	zc := *z
+	z = &zc
 	// set moduleCodeFinder
 	z.moduleCodeFinder = func(isMain bool, info r.LibNameInfo) ([]rune, error) {
 		// suppose the sourceCode is the mainModule ONLY
@@ -87,6 +91,9 @@ func (z *Interpreter) LoadScript(source []rune) *Interpreter {
 }
 
 func (z *Interpreter) LoadFile(file string) *Interpreter {
+	// load into a copy (see LoadScript)
+	zc := *z
+	z = &zc
 	// set moduleCodeFinder
 	z.moduleCodeFinder = func(isMain bool, info r.LibNameInfo) ([]rune, error) {
 		// get dir & fileName -
